@@ -13,12 +13,13 @@ from __future__ import annotations
 
 from harness import lib_c10wire as W
 
+ORDER_NOTES: list = []
 FIELDS = ("data_type", "dims", "name", "int32_data", "int64_data", "uint64_data", "float_data", "double_data", "string_data")
 
 
 def gen_case(H, rng, big=False):
     n_args = rng.choice([0, 0, 1, 2, 3])
-    n_inits = rng.choice([1, 2, 2, 3, 4, 6] + ([12, 40] if big else []))
+    n_inits = rng.choice([12, 40]) if big else rng.choice([1, 2, 2, 3, 4, 6])   # >= 11: names no longer sort like they were made
     dts = H.DT_ALL
 
     def spec():
@@ -196,6 +197,12 @@ def compare(model_out, raw):
     real = [W.tensor_typed(b) for b in raw]
     if len(em) != len(real):
         return f"model emits {len(em)} tensors {[t['name'] for t in em]}, real {len(real)} {[t['name'] for t in real]}"
+    if [t["name"] for t in em] != [t["name"] for t in real] and sorted(t["name"] for t in em) == sorted(t["name"] for t in real) \
+            and len({t["name"] for t in real}) == len(real):
+        # the ORDER of graph.initializer is not part of the property: compare by name, report the order as a note
+        by = {t["name"]: t for t in real}
+        real = [by[t["name"]] for t in em]
+        ORDER_NOTES.append(f"model order {[t['name'] for t in em][:6]}, real order differs")
     for i, (m, r) in enumerate(zip(em, real)):
         fs = ("data_type", "dims", "name") if r["raw_data"] else FIELDS
         for k in fs:
